@@ -198,6 +198,11 @@ def covered_labels(c, comps, calls, hm_cov):
                     elif len(ptoks) > len(plain):
                         cov.add(lab)   # projected out of an iterator item, cannot tell K from V: be liberal
                 else:
+                    # the whole item has to be traced: a call on one variant of it (`if let Value::ObjTuple(t) = key { t.mark() }`) leaves
+                    # every other kind of key / value unreachable for the collector
+                    extra = [x for x in ptoks[len(plain):] if x not in ('Some', '0', '1')]
+                    if extra:
+                        continue
                     if want == '<K>' and any(a in ('@keys', '@iter', '@iter_mut', '@drain', '@into_keys') for a in acc):
                         cov.add(lab)
                     if want == '<V>' and any(a in ('@values', '@iter', '@iter_mut', '@values_mut', '@drain', '@into_values') for a in acc):
